@@ -97,7 +97,7 @@ def rules(ctx, db):
     if has_poll(db):
         ctx.rule("R9", "DIR", "a polling socket op waits for the readiness its system call needs (Readable for recv/accept, Writable for send/connect)")
         n9 = oc.rule_interest(ctx, db, "R9", want_socket=True)
-        ctx.floor("R9", "polling socket ops with a readiness interest", n9, 20)
+        ctx.floor("R9", "polling socket ops with a readiness interest", n9, 16)
 
 
 def check(tier):
